@@ -58,6 +58,7 @@ def directed(quick=False):
                                          ("edit", ("supp", "a.c", "arrayIndexOutOfBounds")), r1]))
     out.append(("inlinesupp-add", il, [("edit", ("add", "a.c", S("fa", hdr=True))), r1, ("edit", ("supp", "a.c", "arrayIndexOutOfBounds")), r1,
                                        ("edit", ("tok", "a.c", "idx")), r1]))
+    out.append(("inlinesupp-move-comment", il, [("edit", ("add", "a.c", S("fa", idx=1, supp="zerodiv"))), r1, ("edit", ("comment", "a.c", "in")), r1]))
     out.append(("staticfn", ["--enable=style,unusedFunction"], [("edit", ("add", "m.c", S("fm", sc=True))), r1, r1]))
     out.append(("suffixclash", ["--enable=unusedFunction"], [("edit", ("add", "io.c", S("fio"))), ("edit", ("add", "stdio.c", S("fstdio"))), r1, r1]))
     return out
